@@ -183,4 +183,49 @@ theorem sortedFiles_nodup (hs : List Hunk) : (sortedFiles hs).Pairwise (fun a b 
   (sortedFiles_asc hs).imp (fun {a b} h hab => by
     rw [hab, pathLt_strictTotal.irrefl] at h; cases h)
 
+-- every file named by a hunk is a key ----------------------------------------------------------------------------------------
+
+theorem self_mem_insertPath (p : Path) : ∀ (l : List Path), p ∈ insertPath p l
+  | [] => by simp [insertPath]
+  | q :: qs => by
+    simp only [insertPath]
+    split
+    · rename_i h; rw [beq_iff_eq.mp h]; exact List.mem_cons_self
+    · split
+      · exact List.mem_cons_self
+      · exact List.mem_cons_of_mem _ (self_mem_insertPath p qs)
+
+theorem mem_insertPath_of_mem {p x : Path} : ∀ {l : List Path}, x ∈ l → x ∈ insertPath p l
+  | [], h => by cases h
+  | q :: qs, h => by
+    simp only [insertPath]
+    split
+    · exact h
+    · split
+      · exact List.mem_cons_of_mem _ h
+      · rcases List.mem_cons.mp h with rfl | h
+        · exact List.mem_cons_self
+        · exact List.mem_cons_of_mem _ (mem_insertPath_of_mem h)
+
+theorem foldl_insertPath_keeps (hs : List Hunk) : ∀ (acc : List Path) (x : Path), x ∈ acc →
+    x ∈ hs.foldl (fun acc h => insertPath h.file acc) acc := by
+  induction hs with
+  | nil => intro acc x h; exact h
+  | cons h0 hs ih => intro acc x h; exact ih _ x (mem_insertPath_of_mem h)
+
+theorem foldl_insertPath_has (hs : List Hunk) : ∀ (acc : List Path) (h : Hunk), h ∈ hs →
+    h.file ∈ hs.foldl (fun acc h => insertPath h.file acc) acc := by
+  induction hs with
+  | nil => intro acc h hm; cases hm
+  | cons h0 hs ih =>
+    intro acc h hm
+    simp only [List.foldl_cons]
+    rcases List.mem_cons.mp hm with rfl | hm
+    · exact foldl_insertPath_keeps hs _ _ (self_mem_insertPath _ _)
+    · exact ih _ h hm
+
+/-- the file of every hunk is one of the files STEP 2 visits -/
+theorem file_mem_sortedFiles {hs : List Hunk} {h : Hunk} (hm : h ∈ hs) : h.file ∈ sortedFiles hs :=
+  foldl_insertPath_has hs [] h hm
+
 end PathOrder
